@@ -617,6 +617,10 @@ func (s *Sim) schedule() {
 		}
 		if s.Steps >= s.opt.MaxSteps {
 			s.Verdict = "budget"
+			if debugAdopt {
+				buf := make([]byte, 1<<20)
+				fmt.Fprintf(os.Stderr, "BUDGET STACKS\n%s\n", buf[:runtime.Stack(buf, true)])
+			}
 			s.Event("BUDGET: %d steps; %s", s.Steps, s.describeTasks())
 			return
 		}
